@@ -127,6 +127,24 @@ pub fn is_parametrize_decorator(expr: &Expr) -> bool {
     is_pytest_mark_decorator(expr, "parametrize")
 }
 
+/// Checks if an expression is a `@pytest.mark.parametrize(...)` call that routes argnames
+/// through fixtures: an `indirect=` keyword other than the constant `False`.
+pub fn is_indirect_parametrize_decorator(expr: &Expr) -> bool {
+    use rustpython_parser::ast::Constant;
+
+    let Expr::Call(call) = expr else {
+        return false;
+    };
+    is_parametrize_decorator(&call.func)
+        && call.keywords.iter().any(|kw| {
+            kw.arg.as_ref().is_some_and(|a| a.as_str() == "indirect")
+                && !matches!(
+                    &kw.value,
+                    Expr::Constant(c) if matches!(c.value, Constant::Bool(false))
+                )
+        })
+}
+
 /// Extracts the fixture names a `@pytest.mark.parametrize(..., indirect=...)` mark requests.
 ///
 /// Each entry is (name, range of the string literal the name is written in, byte offset of the
